@@ -45,6 +45,38 @@ def convert(bs):
     return rec
 
 
+def _history(item):
+    """One process, one long history: between the conversions of canonical text, unicode_to_p8scii is handed text that
+    is NOT the image of any byte string (what an editor or a forum paste leaves in a cart: a glyph without its variation
+    selector, a selector alone, decomposed or foreign characters, a BOM). Whatever it does with those (an error is
+    fine), the conversions of all byte strings afterwards must be what they always are: the functions are pure."""
+    tab, seed = item
+    from pico8.lua import lua
+    rnd = random.Random(seed)
+    multi = [b for b in range(256) if len(tab[b]) > 1]
+    foreign = []
+    for b in multi:
+        cps = tab[b]
+        foreign += [chr(cps[0]), chr(cps[0]) + 'x', 'a' + chr(cps[0]), chr(cps[-1]), chr(cps[0]) * 2, chr(cps[0]) + chr(cps[0]) + chr(cps[-1])]
+    foreign += ['\ufeffx=1', '\u0100', 'e\u0301', '\ufe0f', '\u200d', '\U0001f600', 'x\u2028y', '\x80', '\xff', '\u2588\ufe0f', '\ufe0e']
+    for b in rnd.sample(range(128, 256), 12):
+        foreign.append(''.join(chr(c) for c in tab[b]) + '\ufe0f')
+        foreign.append(''.join(chr(c) for c in tab[b])[:-1] if len(tab[b]) > 1 else chr(tab[b][0] + 1))
+    recs = []
+    probes = [bytes([a]) for a in range(256)] + [bytes(multi) * 3, bytes(multi[::-1]) + b'A' + bytes(multi)]
+    for f in foreign:
+        try:
+            lua.unicode_to_p8scii(f)
+            out = 'returned'
+        except Exception as e:  # noqa
+            out = type(e).__name__
+        for pb in probes:
+            r = convert(pb)
+            r['after'] = [ord(ch) for ch in f][:8]
+            recs.append(r)
+    return recs
+
+
 def run(ctx):
     rnd = random.Random(ctx.seed)
     ctx.rule = ('TLC on the extracted table: all 65280 ordered pairs of entries (injective, prefix-free), all 65536 byte pairs through Encode/Decode; '
@@ -85,6 +117,11 @@ def run(ctx):
         inputs.append(bytes([b]) * 70)
         inputs.append(bytes([b, 65]) * 40 + b'\r\n')
     recs = core.parmap(convert, inputs)
+    hist = core.parmap(_history, [(tab, ctx.seed)], procs=1)[0]
+    ctx.notes['history_conversions_after_foreign_text'] = len(hist)
+    inputs = inputs + [bytes(r['inp']) for r in hist]
+    after = [None] * len(recs) + [r.pop('after') for r in hist]
+    recs = recs + hist
     can1 = {'inp': [65, 128], 'uni': [65, 9608], 'utf8ok': True, 'back': [65, 129]}
     good = convert(b'A\x80')
     can2 = dict(good, uni=good['uni'][:-1] + [good['uni'][-1] + 1])
@@ -93,12 +130,13 @@ def run(ctx):
     ctx.canary(v[-2][0] != 'ok', 'bytes changed on the way back')
     ctx.canary(v[-1][0] == 'encode', 'wrong code point')
     ctx.evaluations += len(inputs)
-    for b, vv in zip(inputs, v):
+    for b, vv, af in zip(inputs, v, after):
         if vv[0] == 'ok':
             ctx.nontrivial += 1
         else:
-            ctx.violation('%s/%s' % (vv[0], 'single' if len(b) == 1 else 'pair' if len(b) == 2 else 'string'),
-                          'conversion of %r rejected (%s)' % (b[:12], vv[0]), {'kind': 'conv', 'bytes': list(b)})
+            ctx.violation('%s/%s%s' % (vv[0], 'single' if len(b) == 1 else 'pair' if len(b) == 2 else 'string', '/after-foreign-text' if af else ''),
+                          'conversion of %r rejected (%s)%s' % (b[:12], vv[0], (' after unicode_to_p8scii was given the non-canonical text with code points %s' % af) if af else ''),
+                          {'kind': 'conv', 'bytes': list(b)})
     ctx.exhaustive = True
     ctx.sample({'bytes': [200, 65], 'unicode': convert(bytes([200, 65]))['uni']})
 
